@@ -249,7 +249,7 @@ func runC06(ctx Ctx) int {
 		})
 		return true
 	})
-	deadline := devx.Deadline(map[string]time.Duration{"quick": 4 * time.Minute, "thorough": 25 * time.Minute}[run.Tier])
+	deadline := devx.Deadline(map[string]time.Duration{"quick": 4 * time.Minute, "thorough": 15 * time.Minute}[run.Tier])
 	_, complete := parallel(len(items), deadline, func(i int) {
 		it := items[i]
 		v := c06Judge(it.p)
@@ -321,7 +321,7 @@ func runC06(ctx Ctx) int {
 	run.Sample(items[len(items)-1].p)
 	cb, cs := 1, 90
 	if run.Tier == "thorough" {
-		cb, cs = 2, 1200
+		cb, cs = 2, 180
 	}
 	runConc(run, "C06", cb, cs)
 	finishCapped(run, complete, fmt.Sprintf("%d executions: 96 configs x k<=%d over %d message dims (%d single alternatives)", len(items), k, len(c06Msg.Dims), c06Msg.CountK(1)-1))
